@@ -475,6 +475,12 @@ func (vp baseStuckVoteproof) isValid(networkID []byte, ovp baseVoteproof) error 
 		return util.ErrInvalid.Errorf("empty expels")
 	}
 
+	// NOTE stuck voteproof is not counted with suffrage, it can not have
+	// majority; finish() sets nil majority.
+	if ovp.majority != nil {
+		return util.ErrInvalid.Errorf("not empty majority for stuck voteproof")
+	}
+
 	return isValidithdrawVoteproof(networkID, vp.expels, ovp)
 }
 
